@@ -948,22 +948,100 @@ C03_End(c, g) ==
        FirstBad(g, << <<g.m = RefCount(ref, p0) /\ g.rest = <<>>, "C03.packet_not_delivered", <<g.m, RefCount(ref, p0)>> >>,
                       <<last.post = rl.post, "C03.final_state_differs", <<>> >> >>, 1)
 
+
+-----------------------------------------------------------------------------
+(* C19  Connections to different broker addresses through one factory do not interfere *)
+\* A joint trace (two addresses, one factory) names the two solo traces (meta.solo).  The sub-sequence of the joint trace
+\* that belongs to an address must equal the solo trace step by step under an injective renaming, built incrementally, of
+\* client-issued packet identifiers, Deferred handles and timer handles.
+LineAddr(ln) == IF "a" \in DOMAIN ln.stim THEN ln.stim.a ELSE IF ln.stim.op = "fire" /\ "own" \in DOMAIN ln.stim THEN ln.stim.own ELSE ""
+SoloIdx(t) == SelectSeq([k \in 1..(Idx[t][2] - Idx[t][1] + 1) |-> Idx[t][1] + k - 1], LAMBDA i : LineAddr(T[i]) # "")
+Strip(r, f) == [x \in DOMAIN r \ {f} |-> r[x]]
+ClientId(p) == (p.t = "PUBLISH" /\ p.qos > 0) \/ p.t \in {"PUBREL", "SUBSCRIBE", "UNSUBSCRIBE"}
+AckOfClient(p) == p.t \in {"PUBACK", "PUBREC", "PUBCOMP", "SUBACK", "UNSUBACK"}
+Item(tag, ids, ds, ts) == [tag |-> tag, ids |-> ids, ds |-> ds, ts |-> ts]
+\* the comparable content of a line
+Items(ln) ==
+  LET s == ln.stim
+      dec(b) == LET d == DecodeLenient(b, 4) IN IF IsBad(d) THEN [t |-> "malformed"] ELSE d
+      stimItem ==
+        CASE s.op = "recv" ->
+               LET ps == Frame(s.bytes).pkts  ds == [i \in 1..Len(ps) |-> dec(ps[i])] IN
+               Item(<<"recv", [i \in 1..Len(ds) |-> IF AckOfClient(ds[i]) THEN [ds[i] EXCEPT !.id = 0] ELSE ds[i]]>>,
+                    [i \in 1..Len(SelectSeq(ds, AckOfClient)) |-> SelectSeq(ds, AckOfClient)[i].id], <<>>, <<>>)
+          [] s.op = "fire" -> Item(<<"fire">>, <<>>, <<>>, <<s.tm>>)
+          [] s.op = "build" -> Item(<<"build", s.g>>, <<>>, <<>>, <<>>)
+          [] OTHER -> Item(<<s.op, Strip(s, "a")>>, <<>>, <<>>, <<>>)
+      fxItem(e) ==
+        CASE e.k = "write" -> LET p == dec(e.bytes) IN
+                              IF p.t # "malformed" /\ ClientId(p) THEN Item(<<"write", e.c[2], [p EXCEPT !.id = 0]>>, <<p.id>>, <<>>, <<>>)
+                              ELSE Item(<<"write", e.c[2], p>>, <<>>, <<>>, <<>>)
+          [] e.k = "arm"    -> Item(<<"arm", e.delay>>, <<>>, <<>>, <<e.tm>>)
+          [] e.k = "cancel" -> Item(<<"cancel">>, <<>>, <<>>, <<e.tm>>)
+          [] e.k = "fire"   -> IF e.ok = 1 /\ e.val.ty = "int" THEN Item(<<"fire", 1, "int">>, <<e.val.v>>, <<e.d>>, <<>>)
+                               ELSE Item(<<"fire", e.ok, IF e.ok = 1 THEN e.val ELSE LogExc(e)>>, <<>>, <<e.d>>, <<>>)
+          [] e.k = "ret"    -> IF e.mid > 0 THEN Item(<<"ret", 1>>, <<e.mid>>, <<e.d>>, <<>>) ELSE Item(<<"ret", 0>>, <<>>, <<e.d>>, <<>>)
+          [] e.k = "cb"     -> Item(<<"cb", Strip(e, "a")>>, <<>>, <<>>, <<>>)
+          [] e.k = "close"  -> Item(<<"close", e.how, e.c[2]>>, <<>>, <<>>, <<>>)
+          [] OTHER          -> Item(<<e.k, LogExc(e)>>, <<>>, <<>>, <<>>)
+  IN <<stimItem>> \o [i \in 1..Len(ln.fx) |-> fxItem(ln.fx[i])]
+\* injective renaming as a sequence of <<joint, solo>> pairs
+RenOne(r, j, s) ==
+  LET hj == SelectSeq(r, LAMBDA p : p[1] = j)  hs == SelectSeq(r, LAMBDA p : p[2] = s) IN
+  IF hj # <<>> THEN [ok |-> hj[1][2] = s, r |-> r]
+  ELSE IF hs # <<>> THEN [ok |-> FALSE, r |-> r]
+  ELSE [ok |-> TRUE, r |-> Append(r, <<j, s>>)]
+RECURSIVE RenSeq(_, _, _, _)
+RenSeq(r, js, ss, i) == IF Len(js) # Len(ss) THEN [ok |-> FALSE, r |-> r]
+                        ELSE IF i > Len(js) THEN [ok |-> TRUE, r |-> r]
+                        ELSE LET x == RenOne(r, js[i], ss[i]) IN IF ~x.ok THEN x ELSE RenSeq(x.r, js, ss, i + 1)
+\* items of a joint line against items of the solo line;  m = [ids, ds, ts, ok]
+RECURSIVE ItemsMatch(_, _, _, _)
+ItemsMatch(m, ji, si, i) ==
+  IF ~m.ok \/ i > Len(ji) THEN m
+  ELSE IF ji[i].tag # si[i].tag THEN [m EXCEPT !.ok = FALSE]
+  ELSE LET a == RenSeq(m.ids, ji[i].ids, si[i].ids, 1)
+           b == RenSeq(m.ds, ji[i].ds, si[i].ds, 1)
+           c == RenSeq(m.ts, ji[i].ts, si[i].ts, 1)
+       IN ItemsMatch([ids |-> a.r, ds |-> b.r, ts |-> c.r, ok |-> a.ok /\ b.ok /\ c.ok], ji, si, i + 1)
+C19_0 == [a \in Addrs |-> [pos |-> 0, ids |-> <<>>, ds |-> <<>>, ts |-> <<>>]]
+IsJoint(ln) == "meta" \in DOMAIN ln /\ "kind" \in DOMAIN ln.meta /\ ln.meta.kind = "joint"
+C19_Step(c, c2, g, ln) ==
+  IF ~IsJoint(ln) \/ LineAddr(ln) = "" THEN OKr(g)
+  ELSE LET a == LineAddr(ln)
+           solo == SoloIdx(ln.meta.solo[a])
+           x == g[a]
+       IN IF x.pos + 1 > Len(solo) THEN Bad2(g, "C19.more_steps_than_alone", <<a, ln.n>>)
+          ELSE LET sl == T[solo[x.pos + 1]]
+                   ji == Items(ln)  si == Items(sl)
+                   m == IF Len(ji) # Len(si) THEN [ids |-> x.ids, ds |-> x.ds, ts |-> x.ts, ok |-> FALSE]
+                        ELSE ItemsMatch([ids |-> x.ids, ds |-> x.ds, ts |-> x.ts, ok |-> TRUE], ji, si, 1)
+                   stateSame == ln.post.state[a] = sl.post.state[a]
+               IN FirstBad([g EXCEPT ![a] = [pos |-> x.pos + 1, ids |-> m.ids, ds |-> m.ds, ts |-> m.ts]],
+                    << <<m.ok, "C19.behaviour_differs_from_alone", <<a, ln.n, sl.n, ln.stim.op, [i \in 1..Len(ji) |-> ji[i].tag[1]], [i \in 1..Len(si) |-> si[i].tag[1]]>> >>,
+                       <<stateSame, "C19.state_differs_from_alone", <<a, ln.n>> >> >>, 1)
+C19_End(c, g) ==
+  LET last == T[Idx[tid][2]] IN
+  IF ~IsJoint(last) THEN OKr(g)
+  ELSE FirstBad(g, << <<\A a \in Addrs : g[a].pos = Len(SoloIdx(last.meta.solo[a])), "C19.fewer_steps_than_alone",
+                        <<[a \in Addrs |-> g[a].pos]>> >> >>, 1)
+
 -----------------------------------------------------------------------------
 (* engine *)
-Gh0 == CASE Prop = "C18" -> C18_0 [] Prop = "C14" -> <<>> [] Prop = "C04" -> C04_0 [] Prop = "C05" -> C05_0 [] Prop = "C10" -> C10_0 [] Prop = "C13" -> C13_0 [] Prop = "C06" -> C06_0 [] Prop = "C07" -> C07_0 [] Prop = "C11" -> C11_0 [] Prop = "C15" -> C15_0 [] Prop = "C16" -> C16_0 [] Prop = "C20" -> C20_0 [] Prop = "C03" -> C03_0 [] OTHER -> <<>>
+Gh0 == CASE Prop = "C18" -> C18_0 [] Prop = "C14" -> <<>> [] Prop = "C04" -> C04_0 [] Prop = "C05" -> C05_0 [] Prop = "C10" -> C10_0 [] Prop = "C13" -> C13_0 [] Prop = "C06" -> C06_0 [] Prop = "C07" -> C07_0 [] Prop = "C11" -> C11_0 [] Prop = "C15" -> C15_0 [] Prop = "C16" -> C16_0 [] Prop = "C20" -> C20_0 [] Prop = "C03" -> C03_0 [] Prop = "C19" -> C19_0 [] OTHER -> <<>>
 PropStep(c, c2, g, ln) ==
   CASE Prop = "C18" -> C18_Step(c, c2, g, ln) [] Prop = "C14" -> C14_Step(c, c2, g, ln)
     [] Prop = "C04" -> C04_Step(c, c2, g, ln) [] Prop = "C05" -> C05_Step(c, c2, g, ln)
     [] Prop = "C06" -> C06_Step(c, c2, g, ln) [] Prop = "C07" -> C07_Step(c, c2, g, ln)
     [] Prop = "C11" -> C11_Step(c, c2, g, ln) [] Prop = "C12" -> C12_Step(c, c2, g, ln)
     [] Prop = "C15" -> C15_Step(c, c2, g, ln) [] Prop = "C16" -> C16_Step(c, c2, g, ln) [] Prop = "C20" -> C20_Step(c, c2, g, ln)
-    [] Prop = "C03" -> C03_Step(c, c2, g, ln)
+    [] Prop = "C03" -> C03_Step(c, c2, g, ln) [] Prop = "C19" -> C19_Step(c, c2, g, ln)
     [] Prop = "C13" -> C13_Step(c, c2, g, ln) [] Prop = "C08" -> C08_Step(c, c2, g, ln)
     [] Prop = "C10" -> C10_Step(c, c2, g, ln) [] Prop = "C09" -> C09_Step(c, c2, g, ln) [] Prop = "C17" -> C17_Step(c, c2, g, ln)
     [] OTHER -> OKr(g)
 PropEnd(c, g) ==
   CASE Prop = "C18" -> C18_End(c, g) [] Prop = "C14" -> C14_End(c, g) [] Prop = "C04" -> C04_End(c, g) [] Prop = "C05" -> C05_End(c, g)
-    [] Prop = "C03" -> C03_End(c, g)
+    [] Prop = "C03" -> C03_End(c, g) [] Prop = "C19" -> C19_End(c, g)
     [] OTHER -> OKr(g)
 
 MInit == /\ tid \in 1..Len(Idx) /\ l = Idx[tid][1] /\ verdict = "run" /\ core = Core0 /\ gh = [g |-> Gh0, hits |-> 0]
